@@ -133,6 +133,22 @@ let show_content (txs : atx list) =
     String.concat "+" (List.map string_of_int ix) ^ "," ^ sn tx.x_fee ^ "," ^
     String.concat ";" (List.map (fun (coin, _) -> sn coin) tx.x_outputs)) txs)
 
+(* "<n> u:3,1 a:- a:0,2": the recorded iteration orders *)
+let read_oracle (toks : string list) : n list list =
+  match toks with
+  | _n :: items -> List.map (fun it ->
+      match String.index_opt it ':' with
+      | Some i -> let body = String.sub it (i + 1) (String.length it - i - 1) in
+        if body = "-" || body = "" then [] else List.map ns (String.split_on_char ',' body)
+      | None -> []) items
+  | [] -> []
+
+let work_budget = (match Sys.getenv_opt "VERIF_TIER" with Some "thorough" -> 600_000 | _ -> 60_000)
+let too_much_work (orders : string list) (n_utxos : int) : bool =
+  let attempts = List.fold_left (fun acc it ->
+    if String.length it > 2 && it.[0] = 'u' then acc + 1 + List.length (String.split_on_char ',' it) else acc) 0 orders in
+  attempts * n_utxos > work_budget
+
 let rec take n l = if n = 0 then ([], l) else match l with x :: r -> let (a, b) = take (n - 1) r in (x :: a, b) | [] -> failwith "short"
 let rec read_traces k toks acc =
   if k = 0 then List.rev acc else
@@ -159,15 +175,25 @@ let () = run_driver (fun toks impl ->
              | Some p -> String.concat "," (List.map sn (tx_summary p))
              | None -> "unparsed") ps in
          let tie = match sections with
-           | [_; tr; bs; _real; content] ->
+           | [_; tr; bs; _real; content; orders] ->
              (match tr, bs with
               | nt :: trest, _nb :: bsizes ->
                 let ctx = build_ctx target a b cpb mvs mts raws bsizes in
                 let traces = read_traces (int_of_string nt) trest [] in
                 let rs = List.map (replay ctx) traces in
                 (* without assets the batcher is deterministic and modelled completely: predict the transactions *)
-                let predicted = if no_assets ctx then (match pure_send_all ctx with Ok txs -> show_content txs | _ -> "model-err")
-                                else String.concat " " content in
+                ignore content;
+                (* the complete model (Batch/AssetPath.v) with the iteration orders the implementation took as its oracle
+                   predicts every transaction; without assets the oracle-free model of Batch/PureAda.v must agree with it *)
+                (* budget: the model repeats every speculative prototype_append of the implementation; cases whose number of
+                   candidate attempts x UTxOs exceeds the tier's budget keep the implementation's content (counted as
+                   `full-model-skipped` by checks/C13.py); the trace tie above and the judge still cover them *)
+                let skipped = too_much_work orders (List.length raws) in
+                let full = if skipped then String.concat " " content else
+                  (match create_send_all_model ctx (read_oracle orders) with Ok txs -> show_content txs | _ -> "model-err") in
+                let predicted = if skipped then full ^ " full-model-skipped" else if no_assets ctx then
+                    (match (if new_ok ctx then pure_send_all ctx else Err) with Ok txs -> if show_content txs = full then full else "pure-vs-full-mismatch" | _ -> "model-err")
+                  else full in
                 " | " ^ nt ^ " " ^ String.concat " " (List.map fst rs) ^ " | " ^ String.concat " " (List.map snd rs) ^ " | " ^ predicted
               | _ -> " | bad-hook-section")
            | _ -> "" in
@@ -176,10 +202,16 @@ let () = run_driver (fun toks impl ->
          | [] -> (m ^ tie, "holds")
          | _ -> (m ^ " VIOL " ^ String.concat " " (List.map (fun (c, i) -> code_name c ^ "@" ^ sn i) viol) ^ tie, "fails:-")
        end
-     | "err" :: "|" :: _nb :: bsizes ->
-       let ctx = build_ctx target a b cpb mvs mts raws bsizes in
-       if no_assets ctx then (match pure_send_all ctx with Ok txs -> ("ok " ^ string_of_int (List.length txs) ^ " model-predicts-success", "na") | _ -> ("err", "na"))
-       else ("err", "na")
+     | "err" :: "|" :: rest ->
+       (match split_bar [] [] rest with
+        | [_nb :: bsizes; orders] ->
+          let ctx = build_ctx target a b cpb mvs mts raws bsizes in
+          if too_much_work orders (List.length raws) then ("err full-model-skipped", "na") else
+          (match create_send_all_model ctx (read_oracle orders) with
+           | Ok txs -> ("ok " ^ string_of_int (List.length txs) ^ " model-predicts-success", "na")
+           | Err -> ("err", "na")
+           | _ -> ("model-outoffuel-or-panic", "na"))
+        | _ -> ("driver-badimpl", "na"))
      | ["err"] -> ("err", "na")
      | ["panic"] -> ("panic", "na")
      | _ -> ("driver-badimpl", "na"))
